@@ -347,4 +347,17 @@ structure RealCodec where
   /-- float() reads "<int>.0[E…]" like "<int>[E…]" -/
   dot0 : ∀ g : GText, g.ok = true → g.frac = [] → parse ({ g with frac := ['0'] } : GText).render = parse g.render
 
+/-- the same for real32 ('%.11G'): the text is read back as a double `y` that is in general NOT the double `x` that was
+    written (11 digits do not determine a double) but rounds to the same binary32 value — which is the claim of the
+    property for "all float32-representable values".  `toF32` = rounding a double to binary32 (e.g. struct.pack('f')). -/
+structure RealCodec32 where
+  fmt : Nat → List Char                   -- format(x, '.11G')
+  parse : List Char → Option Nat          -- float(text)
+  toF32 : Nat → Nat
+  finite32 : Nat → Bool                   -- x is a finite double that is exactly a binary32 value
+  shape : ∀ x, finite32 x = true → ∃ g : GText, g.ok = true ∧ fmt x = g.render
+  /-- 11 significant digits determine a binary32 value -/
+  rt32 : ∀ x, finite32 x = true → ∃ y, parse (fmt x) = some y ∧ toF32 y = toF32 x
+  dot0 : ∀ g : GText, g.ok = true → g.frac = [] → parse ({ g with frac := ['0'] } : GText).render = parse g.render
+
 end Pywbem.Model.CimTypes
